@@ -155,6 +155,20 @@ func (e *Engine) intrinsic(s *State, f *Frame, call *ssa.Call, fn *ssa.Function,
 		e.Stubs["proto.Clone: generic deep copy of the message's Go value"] = true
 		set(IfaceV{T: iv.T, V: e.deepCopy(s, iv.V, iv.T, map[int]int{})})
 		return true
+	case "google.golang.org/protobuf/proto.Merge":
+		d, sr := args[0].(IfaceV), args[1].(IfaceV)
+		e.Stubs["proto.Merge: proto3 merge over the messages' Go values (non-zero scalars replace, set sub-messages merge)"] = true
+		if d.T == nil || sr.T == nil {
+			unsupp("proto.Merge of a nil message")
+		}
+		dp, ok1 := d.V.(PtrV)
+		sp, ok2 := sr.V.(PtrV)
+		if !ok1 || !ok2 || dp.Obj == 0 || sp.Obj == 0 {
+			unsupp("proto.Merge operands are not message pointers")
+		}
+		e.protoMerge(s, dp, sp, d.T, 0)
+		set(nil)
+		return true
 	case "google.golang.org/protobuf/proto.Equal":
 		a, b := args[0].(IfaceV), args[1].(IfaceV)
 		e.Stubs["proto.Equal: generic deep equality (nil and empty repeated fields equal)"] = true
